@@ -79,7 +79,9 @@ ENTRY = {
                       "timeouts and interleavings (timer firing mid-frame included): every timed run shadows a plain run, so a reported success carries the "
                       "exact index of the first supported name on either side (SAFETY), both-succeed runs ARE plain runs (transparency carries over), both "
                       "tasks TERMINATE under every fair timed schedule (a fired timer strictly lowers the potential, the peer of an aborted side cannot "
-                      "block), and the wrapper is invisible while the clock is below the timeouts. (8) The optimistic dialer's Negotiated stream at BYTE "
+                      "block), the wrapper is invisible while the clock is below the timeouts, and in the inherent one-sided case (listener accepted, the "
+                      "dialer's timer fires before it reads the confirmation) the listener's stream delivers NO byte and ends with a clean EOF "
+                      "(C03_timeout_survivor_clean: no negotiation byte is ever handed to the application as data). (8) The optimistic dialer's Negotiated stream at BYTE "
                       "level for every fragmentation: one Negotiated::poll from any point of the expectation stays inside `header frame ++ answer frame` or "
                       "has consumed exactly them with the right verdict (Completed iff the confirmation of the proposed name), flushes header+proposal "
                       "first, never touches the application bytes behind; the completing poll_read returns their first bytes unchanged; poll_write/flush/"
@@ -94,8 +96,9 @@ ENTRY = {
                       "is at message level (application data abstracted as an arbitrary sequence of frames seen by the listener, dialer writes everything "
                       "before it reads) - no byte-level two-ended projection for V1Lazy (the per-poll byte-level theorems of layer 8 are about the dialer's stream against "
                       "a well-formed answer; litep2p's transports use V1 only). Under timeouts agreement of BOTH sides is not claimable (two generals: the "
-                      "listener may have accepted when the dialer's timer fires; C03_timeout_example) - proved instead: safety of every reported success "
-                      "and termination; that the surviving side then reads nothing but a clean EOF is checked on every trace (prop_ok) but is not a theorem. "
+                      "listener may have accepted when the dialer's timer fires; C03_timeout_example) - proved instead: safety of every reported success, "
+                      "termination, and that the surviving listener reads nothing but a clean EOF; the mirrored case (dialer succeeded, listener timed out) is "
+                      "demanded of every trace by prop_ok but its impossibility in the model is not a theorem. "
                       "That code 9 is only ever produced by the abort is not a theorem (the trace oracle checks `Timeout => enough ticks`). Termination of "
                       "the lazy stream (eventual completion under fairness) is not proved, only per-poll exactness. The carrier below the scripted duplex "
                       "(yamux/TCP: what dropping a stream sends), open_substream/accept_substream's yamux parts and the differential against rust-libp2p's "
